@@ -40,6 +40,7 @@ UNPROVEN = ['each effect summary (row of Gen/Effects.lean) is faithful to the Nu
 ASSUMPTIONS = ['histories consist of public API functions known to the scan']
 
 # ------------------------------------------------------------------------------------------ generation
+FOCI = ['mixed', 'optics', 'fourier', 'detector', 'spectrum', 'tilt', 'resample']
 def generate(rng, tier):
     n = {'quick': 60, 'thorough': 1500, 'search': 300}[tier]
     out = []
@@ -49,7 +50,7 @@ def generate(rng, tier):
                         'n': int(rng.integers(10, 17)), 'm': int(rng.integers(12, 19))})
         else:
             out.append({'kind': 'history', 'hseed': int(rng.integers(0, 2**31)), 'length': int(rng.integers(5, 41)),
-                        'focus': ['mixed', 'optics', 'fourier', 'detector', 'spectrum', 'tilt'][(k - k // 6) % 6]})
+                        'focus': FOCI[(k - k // 6) % len(FOCI)]})
     return out
 
 def signature(c): return f"{c['kind']} {c.get('hseed', c.get('which'))} {c.get('length', '')} {c.get('focus', c.get('segments'))}"
@@ -134,17 +135,66 @@ def _build_world(rng):
     return w
 
 PX = 1e-3
+
+def _resolve_label(hint, selfobj=None):
+    """op label = module.qualname of the function object Python will actually run for this call (method resolution through the
+    receiver's class, constructors through the MRO, re-exported functions through their defining module); `hint` only names
+    the attribute to look up"""
+    import importlib, inspect
+    parts = hint.split('.')
+    if selfobj is not None and len(parts) == 3:
+        f = inspect.getattr_static(type(selfobj), parts[2], None)
+        for klass in type(selfobj).__mro__:
+            if parts[2] in vars(klass): f = vars(klass)[parts[2]]; break
+    else:
+        obj = importlib.import_module('lentil.' + parts[0])
+        for a in parts[1:]:
+            if isinstance(obj, type) and a == '__init__':
+                for klass in obj.__mro__:
+                    if '__init__' in vars(klass): obj = vars(klass)['__init__']; break
+            else: obj = getattr(obj, a)
+        f = obj
+    if isinstance(f, property): f = f.fset or f.fget
+    f = getattr(f, '__func__', f)
+    mod = getattr(f, '__module__', None) or ''
+    if not mod.startswith('lentil'): return hint
+    return mod.replace('lentil.', '', 1) + '.' + f.__qualname__
 DU_FFT = 650e-9 * 10 * 2 / (PX * 32)     # output sampling for which the padded FFT grid is 32 x 32
 def _catalogue(w, rng, focus):
     """one randomly chosen op: dict(fn, bind {slot: cell}, call -> result, inplace {cells}, rng_ok, pure, reskind)"""
     import lentil
     D = lentil.detector
     ops = []
-    def op(fn, bind, call, inplace=(), rng_ok=False, pure=True, reskind=None, weight=1, returns_arg=False):
-        ops.append(dict(fn=fn, bind=bind, call=call, inplace=set(inplace), rng_ok=rng_ok, pure=pure, reskind=reskind, weight=weight,
+    def op(fn, bind, call, inplace=(), rng_ok=False, pure=True, reskind=None, weight=1, returns_arg=False, flag=None):
+        fn = fn if fn.startswith('caller.') else _resolve_label(fn, w.cells[bind['self']] if 'self' in bind else None)
+        ops.append(dict(fn=fn, flag=flag, bind=bind, call=call, inplace=set(inplace), rng_ok=rng_ok, pure=pure, reskind=reskind, weight=weight,
                         returns_arg=returns_arg))
     C = w.cells
     a, o, m = w.pick(rng, 'amp'), w.pick(rng, 'opd'), w.pick(rng, 'mask')
+    if focus == 'resample':
+        # results of rescale/resample/copy/fit_tilt are worked on in place afterwards: the plane they came from must not notice
+        op('plane.Pupil.__init__', {'amplitude': a, 'opd': o, 'mask': m},
+           lambda: lentil.Pupil(amplitude=C[a], opd=C[o], mask=C[m], pixelscale=PX, focal_length=10), reskind='plane', weight=2)
+        op('plane.Pupil.__init__', {'amplitude': a, 'mask': m},
+           lambda: lentil.Pupil(amplitude=C[a], opd=0.0, mask=C[m], pixelscale=PX, focal_length=10), reskind='plane', weight=2)
+        pl = w.pick(rng, 'plane', lambda x, i: x.ptype == lentil.pupil)
+        if pl is not None:
+            PL = C[pl]
+            sc = [0.5, 1.0, 1.5, 2.0][int(rng.integers(0, 4))]
+            op('plane.Plane.fit_tilt', {'self': pl}, lambda: PL.fit_tilt(), reskind='plane', weight=2, flag=False)
+            op('plane.Plane.copy', {'self': pl}, lambda: PL.copy(), reskind='plane')
+            if max(PL.shape) <= 4 * N:
+                op('plane.Plane.rescale', {'self': pl}, lambda: PL.rescale(sc), reskind='plane', weight=4)
+                op('plane.Plane.resample', {'self': pl}, lambda: PL.resample(PL.pixelscale[0] / sc), reskind='plane', weight=2)
+            arrs = [i for i, x in enumerate(C) if isinstance(x, np.ndarray) and (x is PL.opd or x is PL.amplitude)]
+            if isinstance(PL.opd, np.ndarray) and PL.opd.flags.writeable:
+                if PL.opd.ndim == 2 and PL.opd.shape == PL.shape:
+                    op('plane.Plane.fit_tilt', {'self': pl}, lambda: PL.fit_tilt(inplace=True), inplace=[pl] + arrs, pure=False, returns_arg=True, weight=4, flag=True)
+                def bump():
+                    x = PL.opd; x += 1e-9
+                op('caller.opd_iadd', {'self': pl}, bump, inplace=[pl] + arrs, pure=False, returns_arg=True, weight=3)
+            def addtilt(): PL.tilt.append(lentil.Tilt(x=1e-6, y=-2e-6))
+            op('caller.tilt_append', {'self': pl}, addtilt, inplace=[pl], pure=False, returns_arg=True, weight=2)
     if focus == 'tilt':
         # wavefronts that carry tilt, reused as the operand of several Tilt planes and propagated afterwards
         op('plane.Pupil.__init__', {'amplitude': a, 'opd': o, 'mask': m},
@@ -160,7 +210,7 @@ def _catalogue(w, rng, focus):
         pf = w.pick(rng, 'plane', lambda x, i: x.ptype == lentil.pupil)
         if focus == 'tilt' and pf is not None:
             PF = C[pf]
-            op('plane.Plane.fit_tilt', {'self': pf}, lambda: PF.fit_tilt(), reskind='plane', weight=3)
+            op('plane.Plane.fit_tilt', {'self': pf}, lambda: PF.fit_tilt(), reskind='plane', weight=3, flag=False)
             wfn = w.pick(rng, 'wf', lambda x, i: x.ptype == lentil.none or (x.ptype == lentil.pupil and x.shape in ((), PF.shape) and len(x.data) <= 2))
             if wfn is not None: op('plane.Plane.multiply', {'self': pf, 'wavefront': wfn}, lambda: C[wfn] * PF, reskind='wf', weight=4)
             wfp = w.pick(rng, 'wf', lambda x, i: x.ptype == lentil.pupil)
@@ -176,10 +226,10 @@ def _catalogue(w, rng, focus):
         if p is not None:
             P = C[p]
             op('plane.Plane.copy', {'self': p}, lambda: P.copy(), reskind='plane')
-            op('plane.Plane.fit_tilt', {'self': p}, lambda: P.fit_tilt(), reskind='plane', weight=2)
+            op('plane.Plane.fit_tilt', {'self': p}, lambda: P.fit_tilt(), reskind='plane', weight=2, flag=False)
             if isinstance(P.opd, np.ndarray) and P.opd.flags.writeable and P.opd.ndim == 2:
                 refs = [i for i, x in enumerate(C) if isinstance(x, np.ndarray) and (x is P.opd or x is P.amplitude)]
-                op('plane.Plane.fit_tilt', {'self': p}, lambda: P.fit_tilt(inplace=True), inplace=[p] + refs, pure=False, returns_arg=True, weight=3)
+                op('plane.Plane.fit_tilt', {'self': p}, lambda: P.fit_tilt(inplace=True), inplace=[p] + refs, pure=False, returns_arg=True, weight=3, flag=True)
             o2 = w.pick(rng, 'opd')
             def setopd(): P.opd = C[o2]
             if P.shape == (N, N): op('plane.Plane.opd', {'self': p, 'value': o2}, setopd, inplace=[p], pure=False, returns_arg=True)
@@ -312,7 +362,7 @@ def _run_history(c):
             rescell = w.add(res, o['reskind'])
         argd = {s: before[i] for s, i in o['bind'].items()}
         if exc is None and o['pure']: done.append((o, {s: _digest(w.cells[i]) for s, i in o['bind'].items()}, _digest(res)))
-        steps.append({'fn': o['fn'], 'bind': [[s, i] for s, i in o['bind'].items()], 'res': rescell, 'changed': changed,
+        steps.append({'fn': o['fn'], 'inplace_flag': o['flag'], 'bind': [[s, i] for s, i in o['bind'].items()], 'res': rescell, 'changed': changed,
                       'allowed': sorted(o['inplace']), 'rng_changed': st0 != st1, 'rng_ok': o['rng_ok'], 'exc': exc,
                       'frozen': [bool(w.frozen[i]) for i in changed], 'kinds': [w.kind[i] for i in changed]})
     return {'steps': steps, 'ncells': len(w.cells)}
@@ -370,6 +420,21 @@ def _witness(c):
         i1 = lentil.propagate_dft(w1, pixelscale=5e-6, shape=32, oversample=2).intensity
         return {'untouched': _digest(w1) == d0 and np.array_equal(i0, i1) and _digest(w3) == d3 and len(p.tilt) == 1,
                 'what': 'Wavefront * Tilt on a wavefront that already carries tilt'}
+    if c['which'] == 'rescale-result-mutated':
+        yy, xx = np.mgrid[0:16, 0:16]
+        amp = ((yy - 8) ** 2 + (xx - 8) ** 2 <= 36).astype(float)
+        ok = True
+        for opd in (2e-7 * (xx - 8) / 8 * amp, 0.0):
+            p = lentil.Pupil(amplitude=amp, opd=opd, pixelscale=1e-3, focal_length=10)
+            if np.ndim(opd): p.fit_tilt(inplace=True)
+            d0 = _digest(p)
+            for q in (p.rescale(2), p.resample(2e-3)):
+                if np.ndim(q.opd) == 2: q.fit_tilt(inplace=True)
+                x = q.opd; x += 1e-9
+                q.tilt.append(lentil.Tilt(x=1e-6, y=0))
+                ok = ok and q.tilt is not p.tilt and not np.shares_memory(np.asarray(q.opd), np.asarray(p.opd)) and not np.shares_memory(np.asarray(q.amplitude), np.asarray(p.amplitude))
+            ok = ok and _digest(p) == d0
+        return {'untouched': bool(ok), 'what': 'in-place work on the result of Plane.rescale/resample'}
     if c['which'] == 'plane-mask-binarised':
         m = np.array([[0., 2.], [3., 0.]]); lentil.Plane(mask=m)
         return {'untouched': m.tolist() == [[0., 2.], [3., 0.]], 'what': 'Plane(mask=m)'}
@@ -390,7 +455,8 @@ def impl(c):
 # ------------------------------------------------------------------------------------------ model
 def requests(c, io):
     if c['kind'] != 'history': return []
-    ops = [{'fn': s['fn'], 'bind': s['bind'], 'res': s['res']} for s in io['steps'] if 'fn' in s]
+    ops = [{'fn': s['fn'], 'bind': s['bind'], 'res': s['res'], **({'inplace': s['inplace_flag']} if s.get('inplace_flag') is not None else {})}
+           for s in io['steps'] if 'fn' in s]
     return [{'op': 'heap.run', 'ops': ops}]
 
 def compare(c, io, mo):
@@ -400,7 +466,7 @@ def compare(c, io, mo):
     real = [s for s in io['steps'] if 'fn' in s]
     if len(real) != len(m['steps']): return 'step count differs'
     for k, (s, a) in enumerate(zip(real, m['steps'])):
-        if not a['known']: return f"step {k}: {s['fn']} is not a public function of the generated effect table"
+        if not a['known'] and not s['fn'].startswith('caller.'): return f"step {k}: {s['fn']} is not a public function of the generated effect table"
         extra = [i for i in s['changed'] if i not in a['may']]
         if extra: return f"step {k}: {s['fn']} changed cells {extra} ({[s['kinds'][s['changed'].index(i)] for i in extra]}); the effect table allows only {a['may']}"
         if s['rng_changed'] and not a['rng']: return f"step {k}: {s['fn']} changed the global generator; the effect table says it does not use it"
